@@ -11,8 +11,7 @@ LEVEL = "proof"
 PROPS = "Reanalysis/Props_C12.v"
 COQ_FILES = ["Lib/SortSearch.v", "Reanalysis/Patch.v", "Reanalysis/Cases.v", "Reanalysis/Proofs.v", "Reanalysis/Props_C12.v"]
 THEOREMS = ["diff_apply_roundtrip", "diff_apply_roundtrip_npm", "diff_apply_roundtrip_maven", "diff_ignores_removed_refuted",
-            "fixed_introduced_algebra", "reanalysis_matches_report", "reanalysis_matches_report_on_D",
-            "explicit_list_reanalysis_refuted", "no_patch_no_change", "applied_fix_not_unactionable",
+            "fixed_introduced_algebra", "reanalysis_matches_report", "no_patch_no_change", "applied_fix_not_unactionable",
             "reported_fix_listed_and_actionable", "choose_at_most_max", "choose_no_introduce", "choose_from_candidates",
             "choose_pairwise_compatible"]
 CORR = ("remediation.ConstructPatches / ResolveGraphVulns+MatchVuln / guidedremediation.choosePatches / computeVulnsResult / "
@@ -36,25 +35,26 @@ SIZES = {
 PER = 100
 
 META = {
-    "technique": "Coq model of ConstructPatches / ResolveGraphVulns (incl. its append to IgnoreVulns) / MatchVuln / choosePatches / "
+    "technique": "Coq model of ConstructPatches / ResolveGraphVulns / MatchVuln (ignore list, explicit list, dev-only) / choosePatches / "
                  "computeVulnsResult / PatchRequirement and of the analyse-fix-write-analyse pipeline; proofs of the diff round trip, "
-                 "the fixed/introduced algebra and the re-analysis theorem with reader/writer/resolver as premises; refutation for "
-                 "explicit lists; vm_compute correspondence + two-run oracle (real FixVulns, then a fresh analysis of the written file)",
+                 "the fixed/introduced algebra and the re-analysis theorem with reader/writer/resolver as premises; vm_compute "
+                 "correspondence + two-run oracle (real FixVulns, then a fresh analysis of the written file); regression corpus of the "
+                 "repaired defects run first",
     "level_text": "Theorem reanalysis_matches_report: if the writer wrote exactly the chosen patch's updates (C13) and resolution + "
                   "vulnerability matching is a function of the requirement map, a fresh analysis of the written manifest reports "
-                  "exactly (original - fixed) + introduced, for every manifest, candidate list and option set with an empty explicit "
-                  "list; reanalysis_matches_report_on_D extends it to explicit lists on the boolean domain explicit_consistent, and "
-                  "explicit_list_reanalysis_refuted shows the sentence is false outside it (reproduced on the implementation: known "
-                  "finding). diff_apply_roundtrip, fixed_introduced_algebra, no_patch_no_change, applied_fix_not_unactionable, "
-                  "choose_at_most_max, choose_no_introduce are proved for all inputs. The model is tied to the code on every run by "
-                  "vm_compute on recorded inputs/outputs of the real functions, and the property sentence itself is evaluated on every "
-                  "generated two-run case (npm relax, Maven override; in-place has no lockfile ReadWriter in this tree).",
+                  "exactly (original - fixed) + introduced, for every manifest, candidate list and option set (any ignore list, any "
+                  "explicit list - full strength since fix ad14cb22). diff_apply_roundtrip, fixed_introduced_algebra, "
+                  "no_patch_no_change, applied_fix_not_unactionable, choose_at_most_max, choose_no_introduce are proved for all inputs. "
+                  "The model is tied to the code on every run by vm_compute on recorded inputs/outputs of the real functions, and the "
+                  "property sentence itself is evaluated on every generated two-run case without any domain restriction (npm relax, "
+                  "Maven override; in-place has no lockfile ReadWriter in this tree).",
     "level_note": "Trusted: Coq kernel + vm_compute; Go harness harness/cmd/reanalysis (string ranks, type ranks via dep.Type.Compare); "
                   "hook guidedremediation/verif_export_c12.go. Premises of the pipeline theorem (validated on every two-run case by "
                   "the oracle, not proved): manifest writer/reader exactness (property C13), deps.dev resolve + matcher are functions "
                   "of the requirement map. Severity and depth filters, Patch.Compare ordering and the strategies' search are oracles.",
     "design_ref": "DESIGN.md section 5 C12",
 }
+CORPUS = os.path.join(vlib.HARNESS, "cmd", "reanalysis", "corpus")
 
 
 def describe(c):
@@ -83,54 +83,39 @@ def eval_chunk(ctx, header, kind, name, body, tag):
     v = header + body + (
         "Definition corr_bad := Eval vm_compute in bad_indices %s %s 0.\nPrint corr_bad.\n"
         "Definition spec_bad := Eval vm_compute in bad_indices %s %s 0.\nPrint spec_bad.\n" % (model_ok, name, spec_ok, name))
-    if ty == "tcase":
-        v += ("Definition sent_bad := Eval vm_compute in bad_indices tcase_sentence_ok %s 0.\nPrint sent_bad.\n"
-              "Definition outside_d := Eval vm_compute in bad_indices tcase_in_D %s 0.\nPrint outside_d.\n"
-              "Definition explicit_bad := Eval vm_compute in bad_indices (fun c => explicit_consistent (tc_opts c) (tc_all0 c) (tc_all2 c)) %s 0.\nPrint explicit_bad.\n"
-              % (name, name, name))
     if ty == "ccase":
         v += ("Definition outside_rt := Eval vm_compute in bad_indices (fun c => roundtrip_domain (cc_mgmt c) (m_reqs (cc_old c)) (m_reqs (cc_new c))) %s 0.\nPrint outside_rt.\n"
               % name)
     rc, out = ctx.run_cases("C12_%s_%s" % (tag, name), v)
-    res = {k: vlib.parse_printed_list(out, k) for k in ("corr_bad", "spec_bad", "sent_bad", "outside_d", "explicit_bad", "outside_rt")}
+    res = {k: vlib.parse_printed_list(out, k) for k in ("corr_bad", "spec_bad", "outside_rt")}
     if rc != 0 or res["corr_bad"] is None or res["spec_bad"] is None:
         raise RuntimeError("cases chunk %s failed: %s" % (name, out[-2000:]))
     return res
 
 
-def run_known(ctx, binp, pa):
-    """Replay every known witness on the implementation; returns list of (entry, still_fails, model_ok)."""
-    out = []
-    for e in ctx.known_findings():
+def run_corpus(ctx, binp):
+    """Regression corpus (witnesses of repaired defects): replayed first, at full strength.
+    Returns (names, corr_failures). A spec failure is reported at once with the concrete input."""
+    import glob
+    names, corr_fail = [], []
+    for f in sorted(glob.glob(os.path.join(CORPUS, "*.json"))):
+        w = json.load(open(f))
         with tempfile.TemporaryDirectory(prefix="c12k-") as d:
-            wf = os.path.join(d, "w.json")
-            json.dump(e["witness"], open(wf, "w"))
             vf = os.path.join(d, "k.v")
-            rc, o = vlib.sh([binp, "-replay", wf, "-out", vf], timeout=300)
+            rc, o = vlib.sh([binp, "-replay", f, "-out", vf], timeout=300)
             if rc != 0:
-                raise RuntimeError("known-finding replay failed: " + o[-1500:])
+                raise RuntimeError("corpus replay failed: " + o[-1500:])
             header, chunks = split_chunks(open(vf).read())
             name, body = chunks["tcases"][0]
-            res = eval_chunk(ctx, header, KINDS[4], name, body, "known_" + re.sub(r"\W", "_", e["id"]))
-        still_fails = res["sent_bad"] == [0]
-        model_ok = res["corr_bad"] == []
-        outside = res["outside_d"] == [0]
-        out.append((e, still_fails, model_ok, outside))
-        if still_fails and model_ok and outside:
-            ctx.print_known(e)
-        elif still_fails and not outside:
-            ctx.violation({"kind": "spec-failure", "case": e["witness"], "known_finding": e["id"],
-                           "explanation": "a known-finding witness fails the property sentence but is no longer outside the "
-                                          "domain D the finding is confined to"})
-        else:
-            ctx.corr_ok = False
-            ctx.violation({"kind": "stale-known-finding", "known_finding": e["id"], "refuted_theorem": e.get("refuted_theorem"),
-                           "domain_theorem": e.get("domain_theorem"), "witness": e["witness"],
-                           "still_fails_on_implementation": still_fails, "model_reproduces_observation": model_ok,
-                           "explanation": "the listed witness no longer shows the recorded behaviour on the implementation while the "
-                                          "model (and its refuted-theorem) still describe it: the tie between model and code is "
-                                          "broken for this finding"}, nofail=True)
-    return out
+            res = eval_chunk(ctx, header, KINDS[4], name, body, "corpus_" + re.sub(r"\W", "_", w["id"]))
+        names.append(w["id"])
+        if res["spec_bad"]:
+            ctx.violation({"kind": "spec-failure", "regression_corpus": w["id"], "what": w.get("what"),
+                           "case": {"universe": w["universe"], "opts": w["opts"]},
+                           "explanation": "a repaired defect is back: the property sentence fails on this corpus input"})
+        elif res["corr_bad"]:
+            corr_fail.append(w)
+    return names, corr_fail
 
 
 def run(ctx):
@@ -164,7 +149,10 @@ def run(ctx):
     rc, out = ctx.coq_make(["theories/Reanalysis/Cases.vo"])   # not in the cone of the Props file
     if rc != 0:
         raise RuntimeError("Reanalysis/Cases.v does not compile: " + out[-2000:])
-    known = run_known(ctx, binp, pa)
+    for e in ctx.known_findings():   # none is open for C12; an open entry without machinery must not pass silently
+        raise RuntimeError("KNOWN_FINDINGS entry %s has status known but C12 has no domain restriction any more" % e["id"])
+    corpus_names, corpus_corr = run_corpus(ctx, binp)
+    ctx.log("regression corpus: %d inputs, %d correspondence mismatches" % (len(corpus_names), len(corpus_corr)))
 
     d = os.path.join(vlib.BUILD, "cases")
     os.makedirs(d, exist_ok=True)
@@ -191,7 +179,7 @@ def run(ctx):
         for k, (name, body) in enumerate(chunks.get(kind[1], [])):
             jobs.append((kind, k, name, body))
     corr_bad, spec_bad = [], []
-    sent_bad, outside_d, explicit_bad, outside_rt = [], [], [], []
+    outside_rt = []
 
     def one(job):
         kind, k, name, body = job
@@ -202,28 +190,13 @@ def run(ctx):
             base = offset[kind[0]] + k * PER
             corr_bad += [base + i for i in res["corr_bad"]]
             spec_bad += [base + i for i in res["spec_bad"]]
-            sent_bad += [base + i for i in (res["sent_bad"] or [])]
-            outside_d += [base + i for i in (res["outside_d"] or [])]
-            explicit_bad += [base + i for i in (res["explicit_bad"] or [])]
             outside_rt += [base + i for i in (res["outside_rt"] or [])]
-    ctx.log("corr_bad=%d spec_bad=%d sentence_fails=%d outside_D=%d" % (len(corr_bad), len(spec_bad), len(sent_bad), len(outside_d)))
-
-    # every failure of the bare sentence must lie outside D and fall under a listed finding
-    known_ids = {e["id"] for e, *_ in known}
-    unexplained = []
-    hits = {"explicit-list": 0, "unsafe-name": 0}
-    exp_set, out_set = set(explicit_bad), set(outside_d)
-    for i in sent_bad:
-        if i not in out_set:
-            continue  # inside D: already in spec_bad
-        c = cases[i]["case"]
-        if i in exp_set and any(k.startswith("explicit-list") for k in known_ids):
-            hits["explicit-list"] += 1
-        elif not c["universe"]["name_safe"] and "npm-dotted-name-update-dropped" in known_ids:
-            hits["unsafe-name"] += 1
-        else:
-            unexplained.append(i)
-    spec_bad = sorted(set(spec_bad) | set(unexplained))
+    ctx.log("corr_bad=%d spec_bad=%d" % (len(corr_bad), len(spec_bad)))
+    if corpus_corr and not corr_bad:
+        w = corpus_corr[0]
+        ctx.violation({"kind": "correspondence-broken", "correspondence": CORR, "theorems_no_longer_tied_to_code": THEOREMS,
+                       "first_mismatch": {"universe": w["universe"], "opts": w["opts"]}, "regression_corpus": w["id"],
+                       "explanation": "model and implementation disagree on this corpus input"}, nofail=True)
 
     # ---------------- evidence
     two = by_kind.get("tworun", [])
@@ -254,8 +227,7 @@ def run(ctx):
     dist["two_run_cases_with_an_error_return"] = errs
     dist["synthetic"] = {k[0]: len(by_kind.get(k[0], [])) for k in KINDS[:4]}
     dist["construct_outside_roundtrip_domain"] = len(outside_rt)
-    dist["two_run_outside_D"] = len(outside_d)
-    dist["two_run_sentence_failures_outside_D_by_finding"] = hits
+    dist["two_run_cases_with_escaped_names"] = sum(1 for c in two if not c["universe"]["name_safe"])
 
     def sample(c):
         if c["kind"] != "tworun":
@@ -276,6 +248,7 @@ def run(ctx):
         "exhaustive": False,
         "input_distribution": dist,
         "vm_compute_cases": len(cases),
+        "regression_corpus": corpus_names,
         "hypotheses_validated": "writer/reader exactness and analysis-is-a-function are not assumed by the oracle: the sentence is "
                                 "evaluated on the real written file and a real fresh analysis for every two-run case in D",
         "explanation": "two-run protocol: run 1 = real guidedremediation.FixVulns on a generated manifest; run 2 = fresh "
@@ -320,11 +293,9 @@ def replay(ctx, path):
                     "Definition model_ok := Eval vm_compute in map %s %s.\nPrint model_ok.\n"
                     "Definition spec_ok := Eval vm_compute in map %s %s.\nPrint spec_ok.\n" % (kind[3], name, kind[4], name))
                 if kind[2] == "tcase":
-                    v += ("Definition sentence_ok := Eval vm_compute in map tcase_sentence_ok %s.\nPrint sentence_ok.\n"
-                          "Definition in_D := Eval vm_compute in map tcase_in_D %s.\nPrint in_D.\n"
-                          "Definition model_fresh_ids := Eval vm_compute in map (fun c => map f_id (snd (resolve_graph_vulns (tc_opts c) (tc_all2 c)))) %s.\nPrint model_fresh_ids.\n"
+                    v += ("Definition model_fresh_ids := Eval vm_compute in map (fun c => map f_id (snd (resolve_graph_vulns (tc_opts c) (tc_all2 c)))) %s.\nPrint model_fresh_ids.\n"
                           "Definition expected_ids := Eval vm_compute in map (fun c => match tc_res_patches c with [p] => expected_after (map o_id (tc_res_vulns c)) (fixed_ids p) (ids (p_introduced p)) | _ => [] end) %s.\nPrint expected_ids.\n"
-                          % (name, name, name, name))
+                          % (name, name))
                 rc, o = ctx.run_cases("C12_replay", v)
                 print(o)
     return 0
